@@ -165,7 +165,7 @@ func (g *Gen) length(c *GenCfg) (n int, isNil bool) {
 		return 1, false
 	case 3:
 		if c.BigLens && c.depth <= 2 {
-			return lib.Pick(r, []int{23, 24, 25, 256}), false
+			return lib.Pick(r, []int{23, 24, 25, 255, 256, 257}), false
 		}
 	}
 	return 1 + r.Intn(c.MaxLen), false
